@@ -276,7 +276,13 @@ func reqsSx(rs []resolve.RequirementVersion) sx.V {
 	out := make([]sx.V, len(rs))
 	for i := range rs {
 		t := rs[i].Type
-		out[i] = sx.L(apiVkSx(rs[i].VersionKey), dumpDep(&t))
+		// the type as the resolvers observe it: every attribute (GetAttr/HasAttr), IsRegular, and
+		// Equal/Compare against the same type built from the zero value by AddAttr (what a
+		// LocalClient holds): a type that went through Clone must not differ in any of these
+		d := dumpDep(&t)
+		fresh := buildDep(d)
+		same := t.Compare(fresh) == 0 && fresh.Compare(t) == 0 && t.Equal(fresh) && t.IsRegular() == fresh.IsRegular()
+		out[i] = sx.L(apiVkSx(rs[i].VersionKey), d, sx.Bool(t.IsRegular()), sx.Bool(same))
 	}
 	return sx.L(out...)
 }
